@@ -13,7 +13,7 @@ import (
 )
 
 func init() {
-	register("C09", "Decides: (R1) the rolling-update planner stores Result.PodsToCreate only as candidates[:k] with k <= the creation result of the limits function, which is >= 0 and <= max(0, MaxPodCreation) on every return, and MaxPodCreation is filled from the ramp function; (R2) every return of the ramp function is <= max(0, *MaxParallelPodCreation) and <= a ramp term whose polynomial normal form over {increase, slots} is coefficient-wise <= increase + increase*slots, i.e. (1 + slots)*increase; (R3) operand roles of the ramp: increase = GetValueFromIntOrPercent(SlowStartAdditiveIncrease, number of targeted nodes, round up), slots = (now - start) / SlowStartIntervalDuration with now the sync's clock value and start the result of the start-time function, which returns either now or the LastTransitionTime of the replica set's Active condition and the latter only when that condition is True; (R4) deletions per sync <= max(0, MaxUnavailablePod) (same checks as C03.R1/R5); (R5) in the replica-set Reconcile every call that can write pods is reachable only through the spacing test (LastFullSync condition absent, or not LastUpdateTime(LastFullSync of the replica set just read) + owner.Spec.Strategy.ReconcileFrequency after the sync's clock value); (R6) from every such call, every path to a return passes the update of the LastFullSync condition (sync's clock value, status True, supportLastUpdate=true) and then the status write of the same status object; the condition updater stores that time as LastUpdateTime.", runC09)
+	register("C09", "Decides: (R1) the rolling-update planner stores Result.PodsToCreate only as candidates[:k] with k <= the creation result of the limits function, which is >= 0 and <= max(0, MaxPodCreation) on every return, and MaxPodCreation is filled from the ramp function; (R2) every return of the ramp function is <= max(0, *MaxParallelPodCreation) and <= a ramp term whose polynomial normal form over {increase, slots} is coefficient-wise <= increase + increase*slots, i.e. (1 + slots)*increase; (R3) operand roles of the ramp: increase = GetValueFromIntOrPercent(SlowStartAdditiveIncrease, number of targeted nodes, round up), slots = (now - start) / SlowStartIntervalDuration with now the sync's clock value and start the result of the start-time function, which returns either now or the LastTransitionTime of the replica set's Active condition and the latter only when that condition is True; (R4) deletions per sync <= max(0, MaxUnavailablePod) (same checks as C03.R1/R5) and the MaxUnavailablePod input is exactly GetValueFromIntOrPercent(RollingUpdate.MaxUnavailable, number of targeted nodes, round up), directly or through a helper returning it; (R5) in the replica-set Reconcile every call that can write pods is reachable only through the spacing test (LastFullSync condition absent, or not LastUpdateTime(LastFullSync of the replica set just read) + owner.Spec.Strategy.ReconcileFrequency after the sync's clock value); (R6) from every such call, every path to a return passes the update of the LastFullSync condition (sync's clock value, status True, supportLastUpdate=true) and then the status write of the same status object; the condition updater stores that time as LastUpdateTime.", runC09)
 }
 
 const (
@@ -1050,7 +1050,7 @@ func runC09(r *Run) {
 	r.Floor("C09.R1", 4)
 	r.Floor("C09.R2", 4)
 	r.Floor("C09.R3", 5)
-	r.Floor("C09.R4", 3)
+	r.Floor("C09.R4", 4)
 	r.Floor("C09.R5", 4)
 	r.Floor("C09.R6", 6)
 	r.NotCovered("that floor(t/interval) is computed with non-negative t (clock skew between syncs); spacing when a status write fails or is lost (excluded by the statement); the one-second resolution of stored timestamps; that the node count passed to the ramp equals the eligible nodes (C01); positivity of the interval (C16.R4); which nodes are creation candidates and that one Create is issued per element (C01.R4); other controllers' reconciles")
@@ -1070,6 +1070,13 @@ func runC09(r *Run) {
 	del := plannerCut(r, "C09.R4", planner, "PodsToDelete")
 	if del != nil {
 		limitsClamp(r, "C09.R4", del.limits, del.idx, "MaxUnavailablePod")
+		// the clamp bounds deletions by the MaxUnavailablePod input: that input must be the spec's
+		// maxUnavailable itself (resolved against the node count, rounded up), not an inflated value
+		if slots, _ := slotValues(del.call); slots != nil {
+			intOrPercentSlot(r, "C09.R4", "MaxUnavailablePod", "MaxUnavailable", del, slots["MaxUnavailablePod"], slots["NbNodes"])
+		} else {
+			r.Undecided("C09.R4", "slot MaxUnavailablePod", r.Prog.Pos(del.call.Pos()), shortFunc(planner), "the limits arguments are not a local struct literal")
+		}
 	} else {
 		relaxFloors(r, "C09.R4")
 	}
